@@ -8,6 +8,7 @@ import (
 	"net/http"
 	"net/http/httptest"
 	"os"
+	"path/filepath"
 	"regexp"
 	"sort"
 	"strconv"
@@ -50,6 +51,20 @@ func runC09Case(seed int64, idx int) *c09Result {
 	variant := 1 + idx%3
 	c := media.Gen(seed, 400000+idx, media.GenOpts{Profile: "e2e", Variant: variant, MinSegments: 8, MaxSegments: 9, MaxWrites: 2500})
 	c.Query = ""
+	if os.Getenv("C09_CASEDEBUG") != "" {
+		for i, w := range c.Writes {
+			if i >= 25 {
+				break
+			}
+			nal := ""
+			for _, n := range w.Data {
+				if len(n) > 0 {
+					nal += fmt.Sprintf(" %02x/%d", n[0], len(n))
+				}
+			}
+			fmt.Printf("write %d track %d (%v) pts %d%s\n", i, w.Track, c.Tracks[w.Track].Kind, w.PTS, nal)
+		}
+	}
 	h := muxrun.New(c, muxrun.Options{})
 	if h.StartErr != "" {
 		fail("harness", "start: %s", h.StartErr)
@@ -118,6 +133,7 @@ func runC09Case(seed int64, idx int) *c09Result {
 	maxHint.Store(-1)
 	needMSN := map[string]int{} // per stream: highest segment number requested
 	var nmu sync.Mutex
+	var firstTS []byte // body of the first MPEG-TS segment served to the client
 
 	lastDated := map[string]map[int]bool{} // per stream: segment number -> dated in the last playlist served
 	segDated := map[string]map[int]bool{}  // per stream: segment number -> dated in the playlist the client had when it asked for it
@@ -163,6 +179,16 @@ func runC09Case(seed int64, idx int) *c09Result {
 			wmu.Lock()
 			dbgPlaylists = append(dbgPlaylists, fmt.Sprintf("next=%d %s\n%s", next, req.URL.Path, rec.Body.String()))
 			wmu.Unlock()
+		}
+		if rec.Code == 200 && firstTS == nil && strings.HasSuffix(req.URL.Path, ".ts") {
+			nmu.Lock()
+			if firstTS == nil {
+				firstTS = append([]byte{}, rec.Body.Bytes()...)
+			}
+			nmu.Unlock()
+		}
+		if d := os.Getenv("C09_DUMP"); d != "" {
+			os.WriteFile(filepath.Join(d, fmt.Sprintf("%d_%s", time.Now().UnixNano(), filepath.Base(req.URL.Path))), rec.Body.Bytes(), 0o644)
 		}
 		return origin.Response{Status: rec.Code, Body: rec.Body.Bytes(), CType: rec.Header().Get("Content-Type")}
 	}
@@ -340,6 +366,21 @@ func runC09Case(seed int64, idx int) *c09Result {
 	if tracks == nil {
 		// the client ended before OnTracks
 		if ended && run.WaitErr != nil {
+			nmu.Lock()
+			declared, present := tsElementaryPIDs(firstTS)
+			nmu.Unlock()
+			var missing []int
+			for _, pid := range declared {
+				if !present[pid] {
+					missing = append(missing, pid)
+				}
+			}
+			if variant == media.VarTS && len(declared) == len(c.Tracks) && len(missing) > 0 && strings.Contains(run.WaitErr.Error(), "no more packets") {
+				// recorded finding (KNOWN_FINDINGS.txt): the first segment the client downloaded
+				// declares every track in its PMT but carries no packet of one of them
+				fail("no-tracks/mpegts-first-segment-lacks-a-track", "case %d: the client ended with %q before reporting tracks: the first segment it downloaded (%d bytes) declares PIDs %v in its PMT and carries no packet of %v (tracks %s)", idx, run.WaitErr, len(firstTS), declared, missing, kindsOfCase(c))
+				return res
+			}
 			fail("no-tracks/"+kindsOfCase(c), "the client ended with %q before reporting tracks (variant %d, tracks %s)", run.WaitErr, variant, kindsOfCase(c))
 		} else {
 			res.obs["inconclusive_no_tracks"]++
@@ -845,4 +886,56 @@ func init() {
 		fmt.Println("held on this case")
 		return 0
 	}
+}
+
+// tsElementaryPIDs returns the elementary PIDs the first PMT of an MPEG-TS segment declares and the
+// set of PIDs that carry at least one packet in it.
+func tsElementaryPIDs(b []byte) (declared []int, present map[int]bool) {
+	present = map[int]bool{}
+	pmtPID := -1
+	section := func(p []byte) []byte {
+		pl := p[4:]
+		if (p[3]>>4)&3 == 3 { // adaptation field
+			if int(pl[0])+1 >= len(pl) {
+				return nil
+			}
+			pl = pl[int(pl[0])+1:]
+		}
+		if len(pl) < 1 || int(pl[0])+1 >= len(pl) {
+			return nil
+		}
+		return pl[int(pl[0])+1:]
+	}
+	for i := 0; i+188 <= len(b); i += 188 {
+		p := b[i : i+188]
+		if p[0] != 0x47 {
+			continue
+		}
+		pid := int(p[1]&0x1f)<<8 | int(p[2])
+		pusi := p[1]&0x40 != 0
+		switch {
+		case pid == 0 && pusi && pmtPID < 0:
+			if s := section(p); len(s) >= 12 {
+				end := 3 + (int(s[1]&0x0f)<<8 | int(s[2])) - 4
+				for o := 8; o+4 <= end && o+4 <= len(s); o += 4 {
+					if int(s[o])<<8|int(s[o+1]) != 0 {
+						pmtPID = int(s[o+2]&0x1f)<<8 | int(s[o+3])
+						break
+					}
+				}
+			}
+		case pid == pmtPID && pusi && declared == nil:
+			if s := section(p); len(s) >= 12 {
+				end := 3 + (int(s[1]&0x0f)<<8 | int(s[2])) - 4
+				o := 12 + (int(s[10]&0x0f)<<8 | int(s[11]))
+				for o+5 <= end && o+5 <= len(s) {
+					declared = append(declared, int(s[o+1]&0x1f)<<8|int(s[o+2]))
+					o += 5 + (int(s[o+3]&0x0f)<<8 | int(s[o+4]))
+				}
+			}
+		case pid != 0 && pid != pmtPID:
+			present[pid] = true
+		}
+	}
+	return declared, present
 }
